@@ -11,6 +11,7 @@ import Psa.Tie.Facts.Fields
 import Psa.Props.C01
 import Psa.Proofs.JsonRoundTrip
 import Psa.Proofs.JsonText
+import Psa.Proofs.JsonTextClaims
 namespace Psa.Props.C12
 open Psa Psa.Model Psa.Spec Psa.Proofs
 
@@ -101,6 +102,26 @@ theorem json_text_int_roundtrip (i : Int) (rest : Bytes) (hr : JText.NumEnd rest
     names, of any size and nesting -/
 theorem json_text_roundtrip (j : Json) (hw : JText.WF j = true) : JText.parseDoc (JText.render j) = some j :=
   JText.parseDoc_render j hw
+
+/-- **byte level, claims**: for every valid claims-set of a built-in profile whose text claims are valid UTF-8, the JSON
+    *text* of its encoding (`render`) reads back (`parseDoc`) to the encoded document, and that document decodes
+    through the dispatching decoder to the claims-set (up to the container holding the components) -/
+theorem json_bytes_decode_encode (u : Bytes → Dec Bytes) (c : Claims) (hv : validate c = .ok ()) (hb : Proofs.ClaimsBounded c)
+    (hbi : Proofs.RT.Builtin c) (hu : u p2Name = .ok p2Name) (ht : Proofs.RT.TextOK c) :
+    ∃ j, encodeJSON c = .ok j ∧ JText.parseDoc (JText.render j) = some j ∧
+      decodeClaimsJSON u builtinRegistry j = .ok (Proofs.RT.rt c) := by
+  obtain ⟨j, he, hd⟩ := json_decode_encode u c hv hb hbi hu
+  have hj : j = jsonDoc c := by
+    have := json_shape c hv
+    rw [he] at this
+    cases this; rfl
+  subst hj
+  exact ⟨_, he, Proofs.JTC.parseDoc_render_jsonDoc c ht, hd⟩
+
+/-- the documented JSON form of a claims-set with valid UTF-8 text is within the writer's domain: integer numbers,
+    ASCII member names, base64 strings, valid UTF-8 text -/
+theorem json_doc_in_text_domain (c : Claims) (ht : Proofs.RT.TextOK c) : JText.WF (jsonDoc c) = true :=
+  Proofs.JTC.wf_jsonDoc c ht
 
 -- non-vacuity: a document with an escape of each kind
 example : JText.WF (.obj [(strBytes "a<b", .arr [.int (-12), .str [0x22, 0x5C, 0x0A, 0x01, 0xE2, 0x80, 0xA8, 0xC3, 0xA9], .null])]) = true := by
